@@ -112,11 +112,12 @@ class ObjMachine(Machine):
     def draw_config(self, st: Streams, idx: int) -> dict:
         w = st.w
         return dict(
-            steps=w.randint(2, 12),
+            steps=w.randint(2, 30 if self.tier == "thorough" else 12),
             platform=w.choice(["ios", "ios", "nxos"]),
             names=w.random() < 0.5, numbered=w.choice(["none", "all"]),
             p_group=0.2, p_ncw=0.1, p_multi=0.4, p_related=0.3, p_heading=0.2, p_remark=0.1,
-            max_lines=w.choice([3, 6]), p_flags=0.2, p_log=0.2,
+            max_lines=w.choice([3, 6, 10] if self.tier == "thorough" else [3, 6]), p_flags=0.2,
+            p_log=0.2,
             group_by=gen.HEAD if w.random() < 0.4 else "",
         )
 
